@@ -106,6 +106,25 @@ CLAIMS = {
             "Trusted: enum.py of the running interpreter, engine A. Unknown state-keeping idioms give ANALYSIS-ERROR.",
             "AST effect/ownership rules on one method + signature binding against parsed stdlib source",
             "A", "DESIGN.md section 4, C14"),
+    "C15": ("proof",
+            "The code generator is interpreted from its syntax trees over the lattice of instruction shapes x placements "
+            "(abstract interpretation with symbolic spec text, the real CodeBlock included); every emitted "
+            "serialize/deserialize, nested case classes included, must satisfy the S-mode typestate rule: entry mode read "
+            "once before anything else, body inside try/finally whose last mode write restores the saved value, saved "
+            "variable never reassigned, inner writes literal True/False and bracketed within one block. Induction over "
+            "nesting gives the property for every spec composed of these shapes.",
+            "Trusted: engine C evaluator (Python subset + native string models), the shape lattice as a cover of the "
+            "instruction grammar, CPython ast for the skeleton.",
+            "abstract interpretation of the generator over a finite shape lattice + typestate rule on emitted ASTs",
+            "C", "DESIGN.md section 4, C15"),
+    "C19": ("proof",
+            "Same abstract interpretation of the generator; on every emitted class the S-immut rule: fields private and "
+            "assigned only in __init__, getter-only properties (no setter/deleter/__setattr__), byte_size set once on the "
+            "fresh result, array parameters copied with tuple(), serialize neither assigns nor mutates the object; plus the "
+            "runtime facts that EoReader returns copies (C05.R9) and EoWriter never adopts a caller's buffer (C09).",
+            "Trusted: engine C/B; property-without-setter semantics of Python.",
+            "abstract interpretation of the generator + structural rule on emitted ASTs + aliasing facts of reader/writer",
+            "B+C", "DESIGN.md section 4, C19"),
     "C20": ("other",
             "Import-binding simulation: Python's import semantics executed abstractly over the ASTs of the static "
             "packages and of the package the generator writes, for a family of 44 representative spec trees (no cross "
